@@ -85,6 +85,14 @@ class FPV:
         if not isinstance(value, float) or sort not in {FSORT_FLOAT, FSORT_DOUBLE}:
             raise ClaripyOperationError("FPV needs a sort (FSORT_FLOAT or FSORT_DOUBLE) and a float value")
 
+        if sort == FSORT_FLOAT:
+            # the result of every single-precision operation is a single-precision value: without this, nested
+            # operations evaluated inside the backend carry double-precision intermediates
+            try:
+                value = struct.unpack("f", struct.pack("f", value))[0]
+            except OverflowError:  # raised by some Python versions instead of rounding to infinity
+                value = math.copysign(float("inf"), value)
+
         self.value = value
         self.sort = sort
 
